@@ -17,6 +17,8 @@ Record obs := Obs {
 
 Inductive case :=
 | CSlice (vs : list (vec3 Q)) (fs : list face) (ref n : vec3 Q) (mask : option (list bool)) (o : result obs)
+(* a face array with negative (wrapping) entries *)
+| CSliceZ (vs : list (vec3 Q)) (fsz : list zface) (ref n : vec3 Q) (mask : option (list bool)) (o : result obs)
 | CUnique (vals uniq inv : list nat).
 
 Definition face_rows (fs : list face) : list (list nat) := map (fun f => [fget f 0; fget f 1; fget f 2]) fs.
@@ -36,5 +38,6 @@ Definition check_obs (mag : Q) (m : mesh_out Q) (o : obs) : bool :=
 Definition check_slicing (c : case) : bool :=
   match c with
   | CSlice vs fs ref n mask o => res_agree (check_obs (mesh_mag vs ref)) (slice_triangles_by_plane QOps vs fs ref n mask) o
+  | CSliceZ vs fsz ref n mask o => res_agree (check_obs (mesh_mag vs ref)) (slice_triangles_by_plane_z QOps vs fsz ref n mask) o
   | CUnique vals u i => nat_list_eqb (fst (unique_bincount vals)) u && nat_list_eqb (snd (unique_bincount vals)) i
   end.
